@@ -107,6 +107,13 @@ fn g_adversarial(max_len: usize) -> BoxedStrategy<(Vec<u8>, &'static str)> {
             let v = (0..len).map(|i| { if rnd[2 * i] % 4 == 0 { cls = (rnd[2 * i] / 4) as usize % 7; } class_gen(cls, rnd[2 * i + 1]) }).collect();
             (v, "class-walk")
         }),
+        // a lead of one class (so that one start mode gets ahead) followed by an alternation in which
+        // several modes cost the same per character
+        3 => (0usize..7, 2usize..=12, vec(0usize..7, 2..=3), 1usize..=max_len, any::<u64>()).prop_map(|(lead, lead_len, alt, len, seed)| {
+            let rnd = expand(seed, len);
+            let v = (0..len).map(|i| if i < lead_len { class_gen(lead, rnd[i]) } else { class_gen(alt[(i - lead_len) % alt.len()], rnd[i]) }).collect();
+            (v, "lead-then-alternation")
+        }),
         // long runs with single interruptions
         2 => (0usize..3, 0usize..7, 2usize..40, 1usize..=max_len, any::<u64>()).prop_map(|(base, intr, every, len, seed)| {
             let rnd = expand(seed, len);
@@ -157,11 +164,15 @@ fn run(ctx: &Arc<Ctx>) {
             }
         }
     }
-    ctx.run_enumerated("fixed", "enc", fixed, None, check);
-    ctx.run_generated("long", "enc", ctx.cases(6_000, 150_000), || g_case(3116), check);
+    // stages in order of input length: a weakened pruning step shows in the counters of short inputs
+    // long before the long inputs become slow (later stages are skipped once a violation is established)
+    ctx.run_generated("short", "enc", ctx.cases(30_000, 600_000), || g_case(40), check);
     ctx.run_generated("medium", "enc", ctx.cases(30_000, 600_000), || g_case(300), check);
     let o = EncGenOpts { long_weight: 2, macro_weight: 0, allow_fnc1: false, allow_macros_flag: false, ..Default::default() };
     ctx.run_generated("class-runs", "enc", ctx.cases(30_000, 600_000), || g_enc_case(o), check);
+    fixed.sort_by_key(|c| c.data.len());
+    ctx.run_enumerated("fixed", "enc", fixed, None, check);
+    ctx.run_generated("long", "enc", ctx.cases(6_000, 150_000), || g_case(3116), check);
 }
 
 fn replay(_ctx: &Ctx, kind: &str, case: &Value) -> Option<Verdict> {
